@@ -16,19 +16,21 @@ func init() {
 	register(&propDef{
 		ID:        "C14",
 		Run:       checkC14,
-		Technique: "static analysis: map-writer census with key identity, lockset, edge-guard reachability, phi-of-constants path feasibility for the evictor, linear cancellation for the padding bound (go/ssa)",
+		Technique: "static analysis: map-writer census with key identity, lockset, edge-guard reachability, phi-of-constants path feasibility for the evictor, linear cancellation for the padding bound, address-part dependence (whole / host / port) of the key's source component through helpers and call sites (go/ssa)",
 		Explanation: "R1 table/census coupling - every insert into the reassembly table is for an absent key and is followed in the same critical section by census[key.addr]+1; every delete removes a key known present and is followed by census[key.addr]-1 with removal of the census entry on the non-positive edge; no other writer of either map; " +
 			"R2 every access to the table and the census holds the table mutex (lock-context helpers discovered from callers); the shared read buffer and everything derived from it is used only under the read mutex; " +
 			"R3 the insert is reachable only over the `census[addr] < 8` edge and, unless `len(table) < 4096` is known, after an evictor that removes an entry on every feasible path on which the table was seen non-empty; all inside the insert's critical section; " +
 			"R4 a new entry's deadline is time.Now()+TTL (TTL > 0); the constructor starts the GC goroutine on the new object; the loop leaves on the close channel, ticks with a period in (0, TTL], sweeps on every tick and never returns on the tick arm; the sweep drops every entry on the now.After(deadline) edge and visits the whole table; Close closes the close channel through a sync.Once on every path; " +
 			"R5 the chunk store is guarded by the empty-slot test for the same entry and index, the index is bounded (index test or declared-total agreement), the stored slice is a fresh copy of the payload of equal length, the received counter is bumped once per store, completion is decided by received vs total, returns a fresh buffer and drops the entry; " +
-			"R6 the sender fragments exactly on the `p[0]&0x80 != 0` edge and passes p/addr through unchanged otherwise, the receiver mirrors the test on the read buffer; the chunk count interval lies inside the decoder's accepted range; all frames of one message carry one loop-invariant message id, the loop index and the drawn total; the padding is computed for the payload actually framed, is 0 only on the `lo > max` edge and otherwise lies in [lo-base, max-base] with base = salt+header+chunk.",
+			"R6 the sender fragments exactly on the `p[0]&0x80 != 0` edge and passes p/addr through unchanged otherwise, the receiver mirrors the test on the read buffer; the chunk count interval lies inside the decoder's accepted range; all frames of one message carry one loop-invariant message id, the loop index and the drawn total; the padding is computed for the payload actually framed, is 0 only on the `lo > max` edge and otherwise lies in [lo-base, max-base] with base = salt+header+chunk; " +
+			"R7 the source component of the key under which an entry enters the table is computed from the whole source address handed out by the inner ReadFrom (addr.String() or a value carrying host and port; followed through same-package helpers, locals and call sites): no definition of it is a projection that keeps the host and drops the port (UDPAddr.IP, AddrPort.Addr(), SplitHostPort host), and it depends on the address at all - otherwise sources behind one host share table slots and the per-source budget and their chunks are mixed.",
 		NotDecided: []string{
 			"byte-identical delivery for every arrival order and interleaving (only the structural guards of the slot store and of completion are decided)",
 			"8-bit message-id wrap-around collisions within the TTL",
 			"that the sender's chunk slices tile the packet exactly, and the index order of the concatenation (covered by the round-trip tests)",
 			"size-range compliance when the chunk alone exceeds the maximum; uint16 overflow of the padding (max packet size is bounded by the constructor)",
 			"timing: that the sweep runs within one period of the deadline",
+			"R7: loss of the IPv6 zone in the source key; key components that flow through memory, indirect calls or string builders (treated as unknown, no verdict)",
 		},
 		Assumptions: []string{
 			"value identity = same SSA value, or the same field path of the same single-assignment local / parameter",
@@ -4594,6 +4596,7 @@ func checkC14(c *Check) {
 	x.r4(tab)
 	x.r5(tab)
 	x.r6(tab)
+	x.r7(tab)
 }
 
 // isRangeKeyOf: v is the key produced by ranging over the map.
@@ -4616,4 +4619,566 @@ func c14rangeOf(v ssa.Value, idx int, m *c14mapUse) *ssa.Next {
 		return nil
 	}
 	return nx
+}
+
+// ---------------------------------------------------------------------------
+// R7 the key's source component carries the whole source address
+//
+// Abstract evaluation of "which parts of the source address does this value
+// depend on".  A value is described by a set of alternatives (one per phi edge
+// / return / store that may define it); each alternative is a mask of
+//   W    the whole address (addr.String(), AddrPort, the net.Addr itself)
+//   IP   only the host part (UDPAddr.IP, AddrPort.Addr(), SplitHostPort #0)
+//   PORT the port (UDPAddr.Port, AddrPort.Port(), SplitHostPort #1)
+//   UNK  something the evaluator cannot follow (memory, indirect calls)
+// Operands combine by OR, definitions by union.  Helpers of the repository
+// are entered with their arguments substituted; a parameter of the function
+// under analysis is lifted to every call site.
+
+const (
+	c14aW    = 1
+	c14aIP   = 2
+	c14aPORT = 4
+	c14aUNK  = 8
+)
+
+type c14aset uint16 // bit m set: mask m is an alternative
+
+func c14aOne(m int) c14aset { return 1 << uint(m) }
+
+func (a c14aset) cross(b c14aset) c14aset {
+	var out c14aset
+	for i := 0; i < 16; i++ {
+		if a&(1<<uint(i)) == 0 {
+			continue
+		}
+		for j := 0; j < 16; j++ {
+			if b&(1<<uint(j)) != 0 {
+				out |= 1 << uint(i|j)
+			}
+		}
+	}
+	return out
+}
+
+func (a c14aset) mapEach(f func(int) int) c14aset {
+	var out c14aset
+	for i := 0; i < 16; i++ {
+		if a&(1<<uint(i)) != 0 {
+			out |= 1 << uint(f(i))
+		}
+	}
+	return out
+}
+
+// addrBits: some alternative depends on the address in a way the evaluator understands.
+func (a c14aset) addrBits() bool {
+	for i := 0; i < 16; i++ {
+		if a&(1<<uint(i)) != 0 && i&(c14aW|c14aIP|c14aPORT) != 0 {
+			return true
+		}
+	}
+	return false
+}
+
+type c14aframe struct {
+	fn   *ssa.Function
+	call ssa.CallInstruction
+	up   *c14aframe
+}
+
+type c14aeval struct {
+	x      *c14ctx
+	addrI  *types.Interface // net.Addr
+	busy   map[ssa.Value]bool
+	steps  int
+	drops  []ssa.Instruction // projections that turned a whole address into its host part
+	dropAt map[ssa.Instruction]string
+}
+
+func (x *c14ctx) newAddrEval() *c14aeval {
+	e := &c14aeval{x: x, busy: map[ssa.Value]bool{}, dropAt: map[ssa.Instruction]string{}}
+	if n := namedOf(x.fInner.Type()); n != nil && n.Obj().Pkg() != nil {
+		if tn, ok := n.Obj().Pkg().Scope().Lookup("Addr").(*types.TypeName); ok {
+			e.addrI, _ = tn.Type().Underlying().(*types.Interface)
+		}
+	}
+	return e
+}
+
+// wholeType: values of this type denote a full source address.
+func (e *c14aeval) wholeType(t types.Type) bool {
+	if t == nil {
+		return false
+	}
+	if c14isNamed(t, "net/netip", "AddrPort") {
+		return true
+	}
+	if p, ok := t.Underlying().(*types.Pointer); ok && c14isNamed(p.Elem(), "net/netip", "AddrPort") {
+		return true
+	}
+	if e.addrI == nil {
+		return false
+	}
+	if types.Implements(t, e.addrI) {
+		return true
+	}
+	if _, isPtr := t.Underlying().(*types.Pointer); !isPtr {
+		if _, isIface := t.Underlying().(*types.Interface); !isIface {
+			return types.Implements(types.NewPointer(t), e.addrI)
+		}
+	}
+	return false
+}
+
+// hostType: values of this type denote the host part only.
+func c14aHostType(t types.Type) bool {
+	return t != nil && (c14isNamed(t, "net", "IP") || c14isNamed(t, "net/netip", "Addr"))
+}
+
+func (e *c14aeval) byType(t types.Type) c14aset {
+	switch {
+	case c14aHostType(t):
+		return c14aOne(c14aIP)
+	case e.wholeType(t):
+		return c14aOne(c14aW)
+	}
+	return c14aOne(c14aUNK)
+}
+
+func (e *c14aeval) projHost(s c14aset, at ssa.Instruction, what string) c14aset {
+	return s.mapEach(func(m int) int {
+		out := m & c14aUNK
+		if m&(c14aW|c14aIP) != 0 {
+			out |= c14aIP
+		}
+		if m&c14aW != 0 && at != nil {
+			if _, seen := e.dropAt[at]; !seen {
+				e.dropAt[at] = what
+				e.drops = append(e.drops, at)
+			}
+		}
+		return out
+	})
+}
+
+func c14aProjPort(s c14aset) c14aset {
+	return s.mapEach(func(m int) int {
+		out := m & c14aUNK
+		if m&(c14aW|c14aPORT) != 0 {
+			out |= c14aPORT
+		}
+		return out
+	})
+}
+
+// netField: f is a field of a struct declared in package net (UDPAddr, TCPAddr, IPAddr ...).
+func c14aNetField(f *types.Var) bool {
+	return f != nil && f.Pkg() != nil && f.Pkg().Path() == "net"
+}
+
+func (e *c14aeval) projField(f *types.Var, base c14aset, at ssa.Instruction) c14aset {
+	switch f.Name() {
+	case "IP":
+		return e.projHost(base, at, "field "+f.Name()+" of a net address")
+	case "Port":
+		return c14aProjPort(base)
+	case "Zone":
+		return base.mapEach(func(m int) int { return m & c14aUNK })
+	}
+	return base
+}
+
+type c14astore struct {
+	path []*types.Var // nil element: any index
+	val  ssa.Value
+}
+
+// allocStores collects every store through an address derived from the local.
+func c14aAllocStores(al *ssa.Alloc) (stores []c14astore, escapes bool) {
+	var walk func(a ssa.Value, path []*types.Var, depth int)
+	walk = func(a ssa.Value, path []*types.Var, depth int) {
+		refs := a.Referrers()
+		if refs == nil || depth > 6 {
+			escapes = true
+			return
+		}
+		for _, r := range *refs {
+			switch u := r.(type) {
+			case *ssa.Store:
+				if u.Addr == a {
+					stores = append(stores, c14astore{append([]*types.Var{}, path...), u.Val})
+				} else {
+					escapes = true
+				}
+			case *ssa.UnOp:
+				if u.Op != token.MUL {
+					escapes = true
+				}
+			case *ssa.FieldAddr:
+				walk(u, append(append([]*types.Var{}, path...), structField(u.X.Type(), u.Field)), depth+1)
+			case *ssa.IndexAddr:
+				walk(u, append(append([]*types.Var{}, path...), nil), depth+1)
+			case *ssa.Slice:
+				// t[:] handed to a call (variadic arguments): read-only unless a
+				// builtin writes through it
+				if u.Referrers() != nil {
+					for _, rr := range *u.Referrers() {
+						switch w := rr.(type) {
+						case *ssa.DebugRef:
+						case *ssa.Call:
+							if _, isB := w.Call.Value.(*ssa.Builtin); isB {
+								escapes = true
+							}
+						default:
+							escapes = true
+						}
+					}
+				}
+			case *ssa.MakeInterface, *ssa.DebugRef:
+			case ssa.CallInstruction:
+				escapes = true
+			default:
+				escapes = true
+			}
+		}
+	}
+	walk(al, nil, 0)
+	return
+}
+
+func c14aPrefix(a, b []*types.Var) bool {
+	if len(a) > len(b) {
+		return false
+	}
+	for i := range a {
+		if a[i] != nil && b[i] != nil && a[i] != b[i] {
+			return false
+		}
+	}
+	return true
+}
+
+func (e *c14aeval) evalAlloc(al *ssa.Alloc, path []*types.Var, fr *c14aframe, depth int) c14aset {
+	stores, esc := c14aAllocStores(al)
+	var alts c14aset
+	part := c14aOne(0)
+	for _, s := range stores {
+		switch {
+		case c14aPrefix(s.path, path):
+			alts |= e.eval(s.val, path[len(s.path):], fr, depth+1)
+		case c14aPrefix(path, s.path):
+			part = part.cross(e.eval(s.val, nil, fr, depth+1))
+		}
+	}
+	if alts == 0 {
+		alts = c14aOne(0)
+	}
+	alts = alts.cross(part)
+	if esc {
+		alts = alts.cross(c14aOne(c14aUNK))
+	}
+	return alts
+}
+
+func (e *c14aeval) evalCallee(fn *ssa.Function, call ssa.CallInstruction, idx int, path []*types.Var, fr *c14aframe, depth int) c14aset {
+	var out c14aset
+	nfr := &c14aframe{fn: fn, call: call, up: fr}
+	for _, b := range fn.Blocks {
+		if len(b.Instrs) == 0 {
+			continue
+		}
+		r, ok := b.Instrs[len(b.Instrs)-1].(*ssa.Return)
+		if !ok {
+			continue
+		}
+		res := retResults(r)
+		if idx >= len(res) || res[idx] == nil {
+			continue
+		}
+		out |= e.eval(res[idx], path, nfr, depth+1)
+	}
+	if out == 0 {
+		out = c14aOne(c14aUNK)
+	}
+	return out
+}
+
+func (e *c14aeval) evalCall(call ssa.CallInstruction, idx int, path []*types.Var, fr *c14aframe, depth int) c14aset {
+	cc := call.Common()
+	var resT types.Type
+	if v, ok := call.(ssa.Value); ok {
+		resT = v.Type()
+		if tup, isTup := resT.(*types.Tuple); isTup {
+			resT = nil
+			if idx < tup.Len() {
+				resT = tup.At(idx).Type()
+			}
+		}
+	}
+	callee := cc.StaticCallee()
+	if callee != nil && len(callee.Blocks) > 0 && e.x.p.IsRepoFn(callee) {
+		return e.evalCallee(callee, call, idx, path, fr, depth)
+	}
+	if mc, ok := cc.Value.(*ssa.MakeClosure); ok {
+		if f, isFn := mc.Fn.(*ssa.Function); isFn && len(f.Blocks) > 0 {
+			return e.evalCallee(f, call, idx, path, fr, depth)
+		}
+	}
+	if callee == nil && !cc.IsInvoke() {
+		if _, isB := cc.Value.(*ssa.Builtin); !isB {
+			return c14aOne(c14aUNK) // call through a function value
+		}
+	}
+	var ops []ssa.Value
+	if cc.IsInvoke() {
+		ops = append(ops, cc.Value)
+	}
+	ops = append(ops, cc.Args...)
+	in, _ := call.(ssa.Instruction)
+	// projections of netip.AddrPort and of host:port strings
+	if callee != nil {
+		if o := callee.Origin(); o != nil {
+			callee = o
+		}
+		pk := fnPkg(callee)
+		recv := callee.Signature.Recv()
+		switch {
+		case pk != nil && pk.Pkg.Path() == "net/netip" && recv != nil && c14isNamed(recv.Type(), "net/netip", "AddrPort") && len(cc.Args) > 0:
+			switch callee.Name() {
+			case "Addr":
+				return e.projHost(e.eval(cc.Args[0], nil, fr, depth+1), in, "AddrPort.Addr()")
+			case "Port":
+				return c14aProjPort(e.eval(cc.Args[0], nil, fr, depth+1))
+			}
+		case pk != nil && pk.Pkg.Path() == "net" && recv == nil && callee.Name() == "SplitHostPort" && len(cc.Args) == 1:
+			switch idx {
+			case 0:
+				return e.projHost(e.eval(cc.Args[0], nil, fr, depth+1), in, "the host result of net.SplitHostPort")
+			case 1:
+				return c14aProjPort(e.eval(cc.Args[0], nil, fr, depth+1))
+			}
+			return c14aOne(0)
+		}
+	}
+	if cc.IsInvoke() && cc.Method.Name() == "Network" && e.wholeType(cc.Value.Type()) {
+		return c14aOne(0)
+	}
+	out := c14aOne(0)
+	for _, a := range ops {
+		out = out.cross(e.eval(a, nil, fr, depth+1))
+	}
+	if !out.addrBits() && (e.wholeType(resT) || c14aHostType(resT)) {
+		// an address produced by code outside the repository from operands that
+		// carry no address: a fresh source address (inner ReadFrom)
+		return e.byType(resT)
+	}
+	return out
+}
+
+func (e *c14aeval) evalParam(prm *ssa.Parameter, path []*types.Var, fr *c14aframe, depth int) c14aset {
+	fn := prm.Parent()
+	idx := -1
+	for i, q := range fn.Params {
+		if q == prm {
+			idx = i
+		}
+	}
+	if idx < 0 {
+		return c14aOne(c14aUNK)
+	}
+	if fr != nil {
+		if fr.fn != fn || idx >= len(fr.call.Common().Args) {
+			return c14aOne(c14aUNK)
+		}
+		return e.eval(fr.call.Common().Args[idx], path, fr.up, depth+1)
+	}
+	cs := e.x.la.callers[fn]
+	if len(cs) == 0 || e.x.la.escaped[fn] {
+		if len(path) > 0 {
+			return c14aOne(c14aUNK)
+		}
+		return e.byType(prm.Type())
+	}
+	var out c14aset
+	for _, call := range cs {
+		if idx >= len(call.Common().Args) {
+			return c14aOne(c14aUNK)
+		}
+		out |= e.eval(call.Common().Args[idx], path, nil, depth+1)
+	}
+	return out
+}
+
+// eval: the address parts component `path` of v depends on.
+func (e *c14aeval) eval(v ssa.Value, path []*types.Var, fr *c14aframe, depth int) c14aset {
+	unk := c14aOne(c14aUNK)
+	e.steps++
+	if v == nil || depth > 40 || e.steps > 20000 {
+		return unk
+	}
+	if e.busy[v] {
+		return unk
+	}
+	e.busy[v] = true
+	defer delete(e.busy, v)
+
+	switch x := v.(type) {
+	case *ssa.ChangeType:
+		return e.eval(x.X, path, fr, depth+1)
+	case *ssa.Convert:
+		return e.eval(x.X, path, fr, depth+1)
+	case *ssa.MakeInterface:
+		return e.eval(x.X, path, fr, depth+1)
+	case *ssa.ChangeInterface:
+		return e.eval(x.X, path, fr, depth+1)
+	case *ssa.SliceToArrayPointer:
+		return e.eval(x.X, path, fr, depth+1)
+	case *ssa.TypeAssert:
+		return e.eval(x.X, path, fr, depth+1)
+	case *ssa.Const, *ssa.Function, *ssa.Builtin, *ssa.MakeSlice, *ssa.MakeMap, *ssa.MakeChan:
+		return c14aOne(0)
+	case *ssa.Global:
+		return c14aOne(0)
+	case *ssa.Parameter:
+		return e.evalParam(x, path, fr, depth)
+	case *ssa.FreeVar:
+		if b := freeVarBinding(x); b != nil && fr == nil {
+			return e.eval(b, path, nil, depth+1)
+		}
+		return unk
+	case *ssa.Phi:
+		var out c14aset
+		for _, ed := range x.Edges {
+			out |= e.eval(ed, path, fr, depth+1)
+		}
+		return out
+	case *ssa.Alloc:
+		return e.evalAlloc(x, path, fr, depth)
+	case *ssa.Field:
+		f := structField(x.X.Type(), x.Field)
+		if c14aNetField(f) {
+			return e.projField(f, e.eval(x.X, nil, fr, depth+1), x)
+		}
+		return e.eval(x.X, append([]*types.Var{f}, path...), fr, depth+1)
+	case *ssa.FieldAddr, *ssa.IndexAddr:
+		// an address used as a value: what it points to
+		return e.evalLoad(x, path, fr, depth, nil)
+	case *ssa.UnOp:
+		if x.Op != token.MUL {
+			if x.Op == token.ARROW {
+				return unk
+			}
+			return e.eval(x.X, path, fr, depth+1)
+		}
+		return e.evalLoad(x.X, path, fr, depth, x)
+	case *ssa.BinOp:
+		return e.eval(x.X, nil, fr, depth+1).cross(e.eval(x.Y, nil, fr, depth+1))
+	case *ssa.Slice:
+		return e.eval(x.X, path, fr, depth+1)
+	case *ssa.Index:
+		return e.eval(x.X, nil, fr, depth+1).cross(e.eval(x.Index, nil, fr, depth+1))
+	case *ssa.Lookup:
+		if _, isMap := x.X.Type().Underlying().(*types.Map); isMap {
+			return unk
+		}
+		return e.eval(x.X, nil, fr, depth+1).cross(e.eval(x.Index, nil, fr, depth+1))
+	case *ssa.Call:
+		return e.evalCall(x, 0, path, fr, depth)
+	case *ssa.Extract:
+		switch t := x.Tuple.(type) {
+		case *ssa.Call:
+			return e.evalCall(t, x.Index, path, fr, depth)
+		case *ssa.TypeAssert:
+			if x.Index == 0 {
+				return e.eval(t.X, path, fr, depth+1)
+			}
+			return c14aOne(0)
+		}
+		return unk
+	}
+	return unk
+}
+
+// evalLoad: the value stored at address a (component path).
+func (e *c14aeval) evalLoad(a ssa.Value, path []*types.Var, fr *c14aframe, depth int, at ssa.Instruction) c14aset {
+	var apath []*types.Var
+	for {
+		if fa, ok := a.(*ssa.FieldAddr); ok {
+			f := structField(fa.X.Type(), fa.Field)
+			if c14aNetField(f) {
+				if at == nil {
+					at = fa
+				}
+				return e.projField(f, e.eval(fa.X, nil, fr, depth+1), at)
+			}
+			apath = append([]*types.Var{f}, apath...)
+			a = fa.X
+			continue
+		}
+		if ia, ok := a.(*ssa.IndexAddr); ok {
+			apath = append([]*types.Var{nil}, apath...)
+			a = ia.X
+			continue
+		}
+		break
+	}
+	full := append(append([]*types.Var{}, apath...), path...)
+	if fv, ok := a.(*ssa.FreeVar); ok && fr == nil {
+		if b := freeVarBinding(fv); b != nil {
+			a = b
+		}
+	}
+	switch b := a.(type) {
+	case *ssa.Alloc:
+		return e.evalAlloc(b, full, fr, depth)
+	case *ssa.Global:
+		return c14aOne(c14aUNK)
+	}
+	if len(apath) > 0 {
+		// a field of an object in memory: not tracked
+		return c14aOne(c14aUNK)
+	}
+	// load through a pointer value (*u, *keyPtr)
+	return e.eval(a, full, fr, depth+1)
+}
+
+func (x *c14ctx) r7(tab *c14mapUse) {
+	c, p := x.c, x.p
+	const r7 = "C14.R7 the source component of the key under which an entry enters the reassembly table is computed from the whole source address returned by the inner ReadFrom (addr.String() or a value carrying host and port), followed through helpers and call sites: it is never a projection of the address that keeps the host and drops the port, and it depends on the address at all"
+	ord := c14ord{}
+	n := 0
+	for _, op := range tab.writes("update") {
+		I := op.instr.(*ssa.MapUpdate)
+		n++
+		key := ord.key("C14.R7:source-key:" + fnName(op.fn))
+		e := x.newAddrEval()
+		s := e.eval(I.Key, []*types.Var{x.fKeyAddr}, nil, 0)
+		hostOnly, all0 := false, s != 0
+		for m := 0; m < 16; m++ {
+			if s&(1<<uint(m)) == 0 {
+				continue
+			}
+			if m != 0 {
+				all0 = false
+			}
+			if m&c14aUNK == 0 && m&c14aIP != 0 && m&(c14aW|c14aPORT) == 0 {
+				hostOnly = true
+			}
+		}
+		switch {
+		case hostOnly:
+			pos, what := p.InstrPos(I), "a host-only projection of the address"
+			if len(e.drops) > 0 {
+				d := e.drops[0]
+				pos, what = p.InstrPos(d), e.dropAt[d]+" in "+fnName(d.Parent())
+			}
+			c.Bad(key, r7, pos, fmt.Sprintf("the %s component of the table key is built from %s and does not depend on the port: all sources behind one host (NAT) share one reassembly slot per message id and one per-source budget, their chunks are mixed", x.fKeyAddr.Name(), what))
+		case all0:
+			c.Bad(key, r7, p.InstrPos(I), fmt.Sprintf("the %s component of the table key does not depend on the source address: chunks of different sources are reassembled together", x.fKeyAddr.Name()))
+		default:
+			c.OK(key, r7, p.InstrPos(I))
+		}
+	}
+	c.Floor("C14.R7:source-key", n, 1)
 }
